@@ -1,7 +1,9 @@
 //! One module per property added after the first round: scenario jobs, registry entry.
 
 pub mod c04;
+pub mod c06;
 pub mod c14;
+pub mod c15;
 
 use crate::scenario::*;
 
@@ -44,4 +46,26 @@ pub fn pre_file(ent: usize, path: &str, size: u64, cseed: u64) -> Pre {
 }
 pub fn pre_dir(ent: usize, path: &str) -> Pre {
     Pre { ent, path: path.into(), file: None }
+}
+
+/// per-worker extras with equal keys are summed
+pub fn sum_extras(out: &mut crate::custom::COut) {
+    use crate::json::J;
+    let mut sums: Vec<(String, i64)> = vec![];
+    let mut rest = vec![];
+    for (k, v) in out.extra.drain(..) {
+        if let J::Int(x) = v {
+            if let Some(e) = sums.iter_mut().find(|e| e.0 == k) {
+                e.1 += x;
+            } else {
+                sums.push((k, x));
+            }
+        } else {
+            rest.push((k, v));
+        }
+    }
+    for (k, v) in sums {
+        out.extra.push((k, J::Int(v)));
+    }
+    out.extra.extend(rest);
 }
